@@ -193,6 +193,16 @@ def check_L11(ctx, rep):
             return 'once', tail
         return None, tail
 
+    # every aggregator looks at every input row: no adaptor that leaves rows out on the way from the input to the fold
+    # (`count` may use an exact size hint instead of counting, `not` only asks whether there is a first row)
+    DROPPING = ('Iterator::skip', 'Iterator::take', 'Iterator::step_by', 'Iterator::skip_while', 'Iterator::take_while', 'Iterator::nth',
+                'Iterator::filter', 'Iterator::filter_map', 'Iterator::last', 'Iterator::nth_back', 'Iterator::find', 'Iterator::position')
+    for name in ('min', 'max', 'sum', 'mean', 'percentile', 'count'):
+        bad = [x for x in names(fns[name]) if x.endswith(DROPPING)]
+        rep.inst('L11.all', '%s: adaptors that leave rows out: %s' % (name, [x.split('::')[-1] for x in bad] or 'none'))
+        for x in bad:
+            rep.viol('L11', 'aggregators::' + name, 'rows-left-out:' + x.split('::')[-1],
+                     '`%s` passes its input through `%s`: some input rows never reach the fold' % (name, x.split('::')[-1]))
     # polarity of min / max
     for name, good, bad in (('min', 'Iterator::min', 'Iterator::max'), ('max', 'Iterator::max', 'Iterator::min')):
         ns = names(fns[name])
@@ -202,7 +212,13 @@ def check_L11(ctx, rep):
         if bd and not g:
             rep.viol('L11', 'aggregators::' + name, 'fold-polarity', '`%s` folds with %s' % (name, bd[0]))
         elif not g and not bd:
-            raise Broken('aggregators::%s: fold not recognised (neither Iterator::min* nor max*)' % name)
+            # a hand-written fold: the comparison that makes the candidate replace the best so far decides the polarity
+            cmp_ops = [n_.get('op') for n_, _ in walk(fns[name]['tree']) if n_.get('k') == 'binary' and n_.get('op') in ('<', '>', '<=', '>=')]
+            folds = any(x.endswith(('Iterator::fold', 'Iterator::reduce')) for x in ns)
+            if folds and cmp_ops:
+                rep.inst('L11.polarity', '%s: hand-written fold with %s (polarity not decided by this rule)' % (name, cmp_ops))
+            elif not rep.violations:
+                raise Broken('aggregators::%s: fold not recognised (neither Iterator::min* nor max*)' % name)
     # emptiness behaviour
     for name, want in (('min', 'option'), ('max', 'option'), ('mean', 'option'), ('percentile', 'option'), ('not', 'option'),
                        ('sum', 'once'), ('count', 'once')):
